@@ -291,5 +291,5 @@ func (c *Ctx) valueIsHandlerStringField(v ssa.Value, fn *ssa.Function) bool {
 	if o.Kind != "param" && o.Kind != "freevar" {
 		return false
 	}
-	return len(o.Path) == 1 && strings.HasPrefix(typeStr(o.Root.Type()), "*gateway.")
+	return len(o.Path) == 1 && strings.HasPrefix(typeStr(o.RootType()), "*gateway.")
 }
